@@ -24,7 +24,7 @@ def strategy():
     cfg = st.one_of(G.config(max_levels=1, free_p=0.0, posonly=False, nonreorderable=True, max_mws=5, all_kinds=False),
                     G.config(max_levels=3, free_p=0.0, posonly=False, nonreorderable=True, max_mws=6, all_kinds=False))
     return st.tuples(cfg, st.integers(0, 40), st.sampled_from(MW_DEV), st.sampled_from(['route', 'route', 'null']),
-                     st.sampled_from(['inner', 'inner', 'any', 'none']))
+                     st.sampled_from(['inner', 'inner', 'any', 'none']), st.sampled_from(['response', 'response', 'base', 'http']))
 
 
 def compare(ctx, w, r, ev, outcome, rc, what):
@@ -55,6 +55,10 @@ def compare(ctx, w, r, ev, outcome, rc, what):
             if r.status not in (404, 405):
                 ctx.mismatch('outcome-null', '%s: expected 404/405, got %s' % (what, r.status), rc)
                 return False
+        elif w.flavour == 'http' and tok.startswith('resp:'):
+            if r.status != 418 or tok.encode() not in r.body:
+                ctx.mismatch('outcome-http-response', '%s: expected the returned 418 error %r, got %s %r' % (what, tok, r.status, r.body[:80]), rc)
+                return False
         elif r.status != 200 or r.body != tok.encode():
             ctx.mismatch('outcome-response', '%s: expected 200 %r, got %s %r' % (what, tok, r.status, r.body[:80]), rc)
             return False
@@ -62,8 +66,9 @@ def compare(ctx, w, r, ev, outcome, rc, what):
 
 
 def body(case, ctx):
-    cfg, pick, mwdev, target, where = case
-    rc = [cfg, pick, mwdev, target, where]
+    cfg, pick, mwdev, target, where = case[:5]
+    flavour = case[5] if len(case) > 5 else 'response'
+    rc = [cfg, pick, mwdev, target, where, flavour]
     ctx.current = rc
     try:
         plan, rej = I.predict(cfg), None
@@ -99,6 +104,8 @@ def body(case, ctx):
         beh[fid] = 'raise' if fid in ('ep', 'rn') else mwdev
     w = built.world
     w.beh = dict(beh)
+    w.flavour = flavour
+    ctx.event('flavour-' + flavour)
     w.new_request()
     if target == 'null':
         path = '/nope'
